@@ -18,6 +18,8 @@ CONSTANTS
   LifecycleFirst = @@LF@@
   SkipLocalTarget = @@SKIP@@
   EvictingLookup = @@EVICT@@
+  HonourContext = @@HCTX@@
+  RejectSeenIds = @@REJSEEN@@
   Emit = FALSE
   Only = "all"
 INIT Init
